@@ -95,6 +95,8 @@ type seamState struct {
 	childWaiters []*childWaiter
 	childPolls   int
 	pipeFds      map[*os.File]int
+	pipeWFds     map[*os.File]int
+	stalled      bool
 	pipeWaiters  []*pipeWaiter
 	children     bool
 }
@@ -105,9 +107,10 @@ type childWaiter struct {
 }
 
 type pipeWaiter struct {
-	f    *os.File
-	fd   int
-	wake chan struct{}
+	f     *os.File
+	fd    int
+	write bool
+	wake  chan struct{}
 }
 
 var seam *seamState
@@ -278,7 +281,7 @@ func (s *seamState) hookRead(f *os.File, b []byte) (int, error, bool) {
 	}
 	if fd, ok := s.pipeFds[f]; ok {
 		// inbound pipe from a real child: park durably while it is empty
-		for !pipeReadable(fd) {
+		for !pipeReady(fd, false) {
 			w := &pipeWaiter{f: f, fd: fd, wake: make(chan struct{})}
 			s.mu.Lock()
 			s.pipeWaiters = append(s.pipeWaiters, w)
@@ -323,6 +326,31 @@ func (s *seamState) hookWrite(f *os.File, b []byte) (int, error, bool) {
 			return n, &os.PathError{Op: "write", Path: f.Name(), Err: errnoOf(ft.Errno)}, true
 		}
 	}
+	if fd, ok := s.pipeWFds[f]; ok {
+		// outbound pipe to a real child: never block in the kernel (not a durable block for the
+		// bubble); write PIPE_BUF-sized pieces, parking durably while the pipe is full
+		total := 0
+		for total < len(b) {
+			for !pipeReady(fd, true) {
+				w := &pipeWaiter{f: f, fd: fd, write: true, wake: make(chan struct{})}
+				s.mu.Lock()
+				s.pipeWaiters = append(s.pipeWaiters, w)
+				s.mu.Unlock()
+				<-w.wake
+			}
+			end := total + 4096
+			if end > len(b) {
+				end = len(b)
+			}
+			n, err := f.VerifRawWrite(b[total:end])
+			total += n
+			s.wrBytes[f] += int64(n)
+			if err != nil {
+				return total, err, true
+			}
+		}
+		return total, nil, true
+	}
 	n, err := f.VerifRawWrite(b)
 	s.wrBytes[f] += int64(n)
 	return n, err, true
@@ -361,6 +389,7 @@ func (s *seamState) hookClose(f *os.File) error {
 		return nil
 	}
 	rt.Yield("os.close")
+	delete(s.pipeWFds, f)
 	if _, ok := s.pipeFds[f]; ok {
 		delete(s.pipeFds, f)
 		s.mu.Lock()
@@ -460,6 +489,7 @@ func (s *seamState) hookPiped(r, w *os.File, rfd, wfd int) {
 		return
 	}
 	s.pipeFds[r] = rfd
+	s.pipeWFds[w] = wfd
 	s.children = true
 }
 
@@ -492,13 +522,16 @@ func (s *seamState) idleStdin() bool {
 	return true
 }
 
-func pipeReadable(fd int) bool {
+func pipeReady(fd int, write bool) bool {
 	type pollfd struct {
 		fd      int32
 		events  int16
 		revents int16
 	}
 	p := pollfd{fd: int32(fd), events: 1 /*POLLIN*/}
+	if write {
+		p.events = 4 /*POLLOUT*/
+	}
 	n, _, e := syscall.Syscall(syscall.SYS_POLL, uintptr(unsafe.Pointer(&p)), 1, 0)
 	if e != 0 {
 		return true
@@ -544,7 +577,7 @@ func (s *seamState) idleChildren() bool {
 		s.mu.Lock()
 		// prefer data on pipes over child exits so that output is read before the close
 		for i, w := range s.pipeWaiters {
-			if pipeReadable(w.fd) {
+			if pipeReady(w.fd, w.write) {
 				s.pipeWaiters = append(append([]*pipeWaiter{}, s.pipeWaiters[:i]...), s.pipeWaiters[i+1:]...)
 				s.mu.Unlock()
 				close(w.wake)
@@ -559,11 +592,18 @@ func (s *seamState) idleChildren() bool {
 				return true
 			}
 		}
+		nchild := len(s.childWaiters)
 		s.mu.Unlock()
+		if nchild == 0 {
+			// every child has exited and been reaped by its waiter; a pipe that is still not ready
+			// never will be: a genuine deadlock of the system under test
+			return false
+		}
 		s.childPolls++
 		ts := syscall.Timespec{Sec: 0, Nsec: 1000000}
 		syscall.Nanosleep(&ts, nil)
 	}
+	s.stalled = true
 	return false
 }
 
